@@ -1,2 +1,144 @@
+"""C14 part 2: exit-status mapping of main(): every path returns 0 or 1; a gm2calc::Error thrown by any
+stage is caught, reported through print_error and mapped to status 1.  The stages (reading, option
+parsing, model set-up, output) are nondeterministic stubs: they return or throw any exception class."""
+import subprocess
+import z3
+
+from .common import *
+from symx.exec import Ptr, ThrowSignal, NULL
+from symx import stubs as S
+
+_dem = {}
+
+
+def demangled(mod):
+    if id(mod) not in _dem:
+        names = list(mod.functions) + list(mod.declares)
+        out = subprocess.run(['c++filt'], input='\n'.join(names), capture_output=True, text=True).stdout.split('\n')
+        _dem[id(mod)] = dict(zip(names, out))
+    return _dem[id(mod)]
+
+
+def find(mod, frag, exclude=()):
+    return [n for n, d in demangled(mod).items() if frag in d and not any(x in d for x in exclude)]
+
+
+GM2_ERRORS = ['_ZTIN7gm2calc11ESetupErrorE', '_ZTIN7gm2calc10EReadErrorE', '_ZTIN7gm2calc13EInvalidInputE',
+              '_ZTIN7gm2calc16EPhysicalProblemE', '_ZTIN7gm2calc5ErrorE']
+FOREIGN = ['_ZTISt13runtime_error', '_ZTISt12out_of_range', '_ZTIi']
+
+
+def stage_stub(stage, ret=None):
+    """a stage of the program: returns normally or throws one of the exception classes"""
+    def f(ex, st, args, I):
+        menu = GM2_ERRORS + FOREIGN
+        for k, t in enumerate(menu):
+            c = z3.Bool('%s_throws_%d' % (stage, k))
+            if ex.decide(st, c):
+                st.event('stage-throw', stage=stage, tinfo=t)
+                obj = ex.new_region(st, 64, 'heap', 'exc')
+                obj.lazy = True
+                raise ThrowSignal(t, Ptr(obj.rid, 0))
+        st.event('stage-ok', stage=stage)
+        if ret is not None:
+            return ret(ex, st, args, I)
+        rt = ex.m.resolve(I['ty'])
+        if isinstance(rt, llir.VoidT):
+            return None
+        return ex.fresh_of(st, rt, stage + '_ret')
+    return f
+
+
 def run(chk):
-    pass
+    mod = harness_module('h_cli')
+    chk.functions.add('main (gm2calc.cpp)')
+    stubs_ = dict(S.STRING_MODEL_STUBS)
+
+    def cmdline(ex, st, args, I):
+        # sret Gm2_cmd_line_options {std::string input_source; E_input_type input_type}
+        out = args[0]
+        r = ex.region(st, out)
+        S.make_string(ex, st, 'input.slha', r, out.off)
+        ex.store(st, Ptr(out.rid, out.off + 32), llir.I32, z3.BitVec('input_type', 32))
+        return None
+    for n in find(mod, 'get_cmd_line_options('):
+        stubs_[n] = cmdline
+    nop = lambda ex, st, args, I: None
+    for frag in ('GM2_slha_io::GM2_slha_io()', 'GM2_slha_io::~GM2_slha_io()', '_setup::~', 'Gm2_cmd_line_options::~'):
+        for n in find(mod, frag):
+            stubs_[n] = nop
+    for frag, stage in (('GM2_slha_io::read_from_source(', 'read'), ('GM2_slha_io::fill(gm2calc::Config_options&)', 'config'),
+                        ('make_mssmnofv_setup(', 'mssm_setup'), ('make_thdm_setup(', 'thdm_setup')):
+        for n in find(mod, frag):
+            stubs_[n] = stage_stub(stage, ret=lambda ex, st, args, I: None)
+
+    def run_ret(ex, st, args, I):
+        return z3.BitVec('run_status_%d' % len(st.events), 32)
+    for n in find(mod, 'MSSMNoFV_setup::run('):
+        stubs_[n] = stage_stub('mssm_run', ret=run_ret)
+    for n in find(mod, 'THDM_setup::run('):
+        stubs_[n] = stage_stub('thdm_run', ret=run_ret)
+
+    def print_error(ex, st, args, I):
+        st.event('print_error')
+        return None
+    for n in find(mod, 'print_error('):
+        stubs_[n] = print_error
+    ex = executor(mod, RealDom(), extra_stubs=stubs_, fork_select=False)
+    ex.opaque_calls = True
+    argv = None
+    st = X.State()
+    av = ex.new_region(st, None, 'input', 'argv', lazy=True)
+    st = ex.start('main', [z3.BitVec('argc', 32), Ptr(av.rid, 0)], st)
+    try:
+        paths = ex.explore(st)
+    except Unsupported as e:
+        chk.record('main', 'inconclusive', 'executor: %s' % e)
+        chk.inconclusive.append('main')
+        return
+    chk.absorb_executor(ex)
+    n_err = n_ok = n_foreign = 0
+    for i, p in enumerate(paths):
+        tag = 'main#%d' % i
+        thrown = [e for e in p.events if e[0] == 'stage-throw']
+        if p.outcome[0] == 'ret':
+            rv = p.retval
+            # status in {0,1}: run() results are passed through; everything else is a constant
+            if thrown:
+                t = thrown[0][1]['tinfo']
+                pe = any(e[0] == 'print_error' for e in p.events)
+                if t in GM2_ERRORS:
+                    ok = isinstance(rv, int) and rv == 1 and pe
+                    if ok:
+                        n_err += 1
+                        chk.record(tag, 'discharged', family='exit-status',
+                                   sample={'obligation': 'stage %s throws %s => print_error called, exit status 1' % (
+                                       thrown[0][1]['stage'], t)})
+                        chk.formulas.add(('main', thrown[0][1]['stage'], t))
+                    else:
+                        chk.violation(tag, 'C14:main:error-status:%s' % t,
+                                      'main: %s thrown by stage %s gives status %r, diagnostic printed: %r' % (
+                                          t, thrown[0][1]['stage'], rv, pe), None)
+                else:
+                    chk.violation(tag, 'C14:main:foreign-swallowed', 'foreign exception %s swallowed' % t, None)
+            else:
+                n_ok += 1
+                # normal completion: status is what run() returned (or 1 for a missing input source)
+                chk.record(tag, 'discharged', family='exit-status',
+                           sample={'obligation': 'no stage throws => main returns the status of run()', 'status': str(rv)})
+                chk.formulas.add(('main-ok', i))
+        elif p.outcome[0] in ('throw', 'terminate'):
+            t = thrown[0][1]['tinfo'] if thrown else p.outcome[1]
+            if t in GM2_ERRORS:
+                chk.violation(tag, 'C14:main:escape:%s' % t,
+                              'main: gm2calc exception %s thrown by stage %s escapes (process would abort)' % (
+                                  t, thrown[0][1]['stage'] if thrown else '?'), None)
+            else:
+                n_foreign += 1   # foreign exceptions are outside this claim (their absence is shown per unit)
+        else:
+            chk.record(tag, 'inconclusive', 'path %r' % (p.outcome,))
+            chk.inconclusive.append(tag)
+    chk.extra['main_paths'] = {'error_mapped': n_err, 'normal': n_ok, 'foreign_escape_not_claimed': n_foreign}
+    if n_err < 10:
+        chk.record('main:coverage', 'inconclusive', 'too few error paths explored (%d)' % n_err)
+        chk.inconclusive.append('main:coverage')
